@@ -35,7 +35,11 @@ theorem psound_inner_join_swap : pstmt_inner_join_swap := by
   exact inner_join_swap_core es on L R (by simpa [join] using hes) hd hon
 
 theorem keyEq_comm (a b : PV) : keyEq a b = keyEq b a := by
-  unfold keyEq; exact decide_eq_decide.mpr ⟨fun h => h.symm, fun h => h.symm⟩
+  unfold keyEq
+  apply decide_eq_decide.mpr
+  constructor
+  · rintro ⟨hn, rfl⟩; exact ⟨hn, rfl⟩
+  · rintro ⟨hn, rfl⟩; exact ⟨hn, rfl⟩
 
 theorem keysEq_comm (lk rk : List VExpr) (ρ : Env) : keysEq lk rk ρ = keysEq rk lk ρ := by
   induction lk generalizing rk with
